@@ -131,7 +131,7 @@ def lean_predict(table_lean):
     if not ok:
         return False, None, "Generated/BrandTable.lean does not compile:\n" + log[-2000:]
     rc, out = _sh(["lean", os.path.join(PROBES, "Predict.lean")], env=dict(ENV, LEAN_PATH=out_dir), timeout=900)
-    pred = dict(adt=[], callback=[], collect=[], transmute=[], payload=[], viol={}, required={})
+    pred = dict(adt=[], callback=[], collect=[], transmute=[], payload=[], builder=[], viol={}, required={})
     bad = []
     for line in out.splitlines():
         if "\t" not in line:
@@ -205,6 +205,7 @@ THEOREM_TEXT = {
     "branded_invariant": "these branded types are no longer invariant in 'gc (or lost their 'gc parameter)",
     "not_send_not_sync": "these types are no longer both !Send and !Sync",
     "no_explicit_auto_impls": "explicit Send / Sync impls exist",
+    "builders_invariant_in_value_type": "these types hold a parameter only behind a raw pointer / MaybeUninit, let safe code store a value of it without a Collect / 'static bound, and are not invariant in it (builder rule, defect D4)",
     "callbacks_present": "these callback entry points were not found",
     "callbacks_higher_ranked": "these entry points are no longer `for<'gc>` with `&'gc Mutation<'gc>` and a brand-free result",
     "collect_static_only": "these reference / interior-mutability / Static `Collect` impls lost their 'static bounds",
@@ -218,12 +219,16 @@ def explain_entries(theorem, entries, table):
     adts = {a["name"]: a for a in table.get("adts", [])}
     for e in entries:
         out.append(f"entry: {e}")
-        nm = e.split(" ")[0].split(":")[0] if theorem != "callbacks_higher_ranked" else None
+        nm = e.split(" ")[0].split(":")[0].split("<")[0] if theorem != "callbacks_higher_ranked" else None
         if nm in adts:
             a = adts[nm]
             out.append(f"  {a['kind']} {a['name']}<{', '.join(['%s%s' % (chr(39), l) for l in a['lts']] + [p['name'] for p in a['tys']])}> ({a['file']})")
             for f in a["fields"]:
                 out.append(f"    {f['name']}: {f['rust']}" + (f"   [cfg({f['cfg']})]" if f["cfg"] else ""))
+        if theorem == "builders_invariant_in_value_type":
+            for m in table.get("methods", []):
+                if m["adt"] == nm:
+                    out.append(f"    safe method {m['adt']}{' as ' + m['trait'] if m['trait'] else ''}::{m['method']}({', '.join(m['params'])}) on impl for <{', '.join(m['selfArgs'])}>; Collect/'static-bounded: {m['bounded']} ({m['file']})")
         if theorem == "invariant_alias":
             for al in table.get("aliases", []):
                 if al["name"] == "Invariant":
@@ -368,7 +373,7 @@ def run(prop, tier, seed, repo=None, lean_out=None):
             continue
         if p["negative"] and accepted:
             extra = []
-            if p.get("exploit") or p["cls"] in ("escape", "cross-arena", "collect-static"):
+            if p.get("exploit") or p["cls"] in ("escape", "cross-arena", "collect-static", "builder"):
                 ex = prun.run_exploit(p, rlib, deps, pdir)
                 if ex:
                     extra = ["executed: rc=%s" % ex.get("rc"), "stdout: " + ex.get("stdout", "").strip()[:400], "stderr: " + ex.get("stderr", "").strip()[:400]]
@@ -410,6 +415,7 @@ def run(prop, tier, seed, repo=None, lean_out=None):
         what = {"escape": f"escape of a branded value ({p.get('payload')}) from {p.get('entry')} via `{p.get('kind')}`",
                 "cross-arena": "use of a pointer of one arena inside another arena's callback",
                 "variance": "brand coercion (the type is not invariant in its brand)",
+                "builder": "value-type coercion of a builder-like type (it holds its parameter behind a raw pointer, stores unchecked values, and is not invariant)",
                 "auto": "Send / Sync holds for a type that must not be thread-movable",
                 "collect-static": "smuggling a Gc through a root type that is not traced",
                 "dynroot": "fetching a DynamicRoot from the wrong DynamicRootSet"}.get(p["cls"], p["cls"])
